@@ -257,8 +257,8 @@ theorem apple_core (env : Prog.Env) (o : AttObj) (h : Bytes) (res : Result)
 /-- two descriptions of the same response carry the same nonce -/
 theorem safetyNetResponse_nonce_unique (env : Prog.Env) (raw n n' : Bytes)
     (h : Spec.Att.SafetyNetResponse env raw n) (h' : Spec.Att.SafetyNetResponse env raw n') : n = n' := by
-  rcases h with ⟨c, der, cert, rest, hp, -, -, -, -, hcl⟩ | ⟨v, hu, ha, -, -, -, hn⟩
-  · rcases h' with ⟨c', der', cert', rest', hp', -, -, -, -, hcl'⟩ | ⟨v', hu', -⟩
+  rcases h with ⟨c, der, cert, rest, hp, -, -, -, hcl⟩ | ⟨v, hu, ha, -, -, -, hn⟩
+  · rcases h' with ⟨c', der', cert', rest', hp', -, -, -, hcl'⟩ | ⟨v', hu', -⟩
     · rw [hp] at hp'
       cases hp'
       exact Option.some.inj (hcl.symm.trans hcl')
@@ -755,8 +755,6 @@ theorem appleNonceExt_nonce : KeyDesc.appleNonce appleNonceExt = some [] := by
 def noShaEnv : Prog.Env := ⟨fun q => match q with
   | .safetyNet _ => .safetyNet ⟨true, true, true, []⟩
   | .x509Parse _ => .cert ⟨3, false, [], [], [], [], [⟨Generated.Core.oidAppleNonce, false, appleNonceExt⟩], [], .ed (zeros 32)⟩
-  | .x509Verify .. => .bool true
-  | .jwsVerify .. => .bool true
   | _ => .none⟩
 
 theorem noShaEnv_ok : SigBinds noShaEnv ∧ HashInj noShaEnv := by
@@ -773,42 +771,49 @@ theorem safetyNet_accepts (ad : Bytes) :
     Prog.run noShaEnv (verifySafetyNet ⟨[], ad, snStmt⟩ []) = some ⟨"Basic", []⟩ := by
   with_unfolding_all rfl
 
-/-- kernel evaluation of the JWS model on the compact example token (restated as `safetyNet_compact_parse` below) -/
-theorem compact_parse_aux :
-    (match Jws.parse (Bytes.ofString "eyJ4NWMiOlsiQUE9PSJdfQ.e30.") with
-     | .ok c => c.x5c == [[0]] && c.payload == Bytes.ofString "{}" && c.signature == [] && c.verifiable &&
-                c.signingInput == Bytes.ofString "eyJ4NWMiOlsiQUE9PSJdfQ.e30" && Jws.claims c.payload == some []
+/-- a compact token `base64url({"alg":"EdDSA","x5c":["AA=="]}) . base64url({}) . ""`: one x5c entry, empty claims (nonce absent = empty) -/
+def snCompactStmt : List (Bytes × Cbor.Value) := [(Att.s "response", .bytes (Bytes.ofString "eyJhbGciOiJFZERTQSIsIng1YyI6WyJBQT09Il19.e30."))]
+
+/-- the dependencies answer positively: the x5c entry is a certificate with an Ed25519 key, it validates for the SafetyNet host name,
+    the Ed25519 check over the signing input succeeds; SHA-256 is unavailable (so the expected nonce is empty) -/
+def snCompactEnv : Prog.Env := ⟨fun q => match q with
+  | .x509Parse _ => .cert ⟨3, false, [], [], [], [], [], [], .ed (zeros 32)⟩
+  | .x509Verify .. => .bool true
+  | .sigVerify .eddsa _ _ _ _ => .bool true
+  | _ => .none⟩
+
+theorem safetyNet_compact_parse :
+    (match Jws.parse (Bytes.ofString "eyJhbGciOiJFZERTQSIsIng1YyI6WyJBQT09Il19.e30.") with
+     | .ok c => c.x5c == [[0]] && c.payload == Bytes.ofString "{}" && c.signature == [] && c.verifiable && c.alg == Bytes.ofString "EdDSA" &&
+                c.signingInput == Bytes.ofString "eyJhbGciOiJFZERTQSIsIng1YyI6WyJBQT09Il19.e30" && Jws.claims c.payload == some [] &&
+                Jws.verifyPlan c.alg (.ed (zeros 32)) c.signature == .primitive .eddsa 0 []
      | _ => false) = true := by
   decide +kernel
 
-/-- a compact token `base64url({"x5c":["AA=="]}) . base64url({}) . ""`: one x5c entry, empty claims (nonce absent = empty) -/
-def snCompactStmt : List (Bytes × Cbor.Value) := [(Att.s "response", .bytes (Bytes.ofString "eyJ4NWMiOlsiQUE9PSJdfQ.e30."))]
-
-/-- non-vacuity of the compact branch: with the dependencies answering positively the Lean JWS model takes this token through
-    header decoding, x5c decoding, claims decoding and the nonce comparison -/
+/-- non-vacuity of the compact branch: the Lean JWS model takes this token through header decoding, x5c decoding, the choice of the
+    signature primitive (Ed25519 over the signing input), claims decoding and the nonce comparison -/
 theorem safetyNet_accepts_compact (ad : Bytes) :
-    Prog.run noShaEnv (verifySafetyNet ⟨[], ad, snCompactStmt⟩ []) = some ⟨"Basic", []⟩ := by
-  have hp := compact_parse_aux
-  have hraw : stmtBytes snCompactStmt "response" = some (Bytes.ofString "eyJ4NWMiOlsiQUE9PSJdfQ.e30.") := by decide +kernel
+    Prog.run snCompactEnv (verifySafetyNet ⟨[], ad, snCompactStmt⟩ []) = some ⟨"Basic", []⟩ := by
+  have hp := safetyNet_compact_parse
+  have hraw : stmtBytes snCompactStmt "response" = some (Bytes.ofString "eyJhbGciOiJFZERTQSIsIng1YyI6WyJBQT09Il19.e30.") := by decide +kernel
   rw [JwsLemmas.verifySafetyNet_iff]
-  cases hc : Jws.parse (Bytes.ofString "eyJ4NWMiOlsiQUE9PSJdfQ.e30.") with
+  cases hc : Jws.parse (Bytes.ofString "eyJhbGciOiJFZERTQSIsIng1YyI6WyJBQT09Il19.e30.") with
   | ok c =>
     rw [hc] at hp
     simp only [Bool.and_eq_true, beq_iff_eq] at hp
-    obtain ⟨⟨⟨⟨⟨hx, -⟩, -⟩, hv⟩, -⟩, hcl⟩ := hp
+    obtain ⟨⟨⟨⟨⟨⟨⟨hx, -⟩, -⟩, hv⟩, -⟩, -⟩, hcl⟩, hpl⟩ := hp
     refine ⟨_, [], hraw, Spec.Att.SafetyNetResponse.compact c [0]
-      ⟨3, false, [], [], [], [], [⟨Generated.Core.oidAppleNonce, false, appleNonceExt⟩], [], .ed (zeros 32)⟩ [] hc ?_ rfl hv rfl hcl, rfl, rfl⟩
-    rw [hx]
-    exact ⟨rfl, rfl, trivial⟩
+      ⟨3, false, [], [], [], [], [], [], .ed (zeros 32)⟩ [] hc ?_ rfl ⟨hv, ?_⟩ hcl, rfl, rfl⟩
+    · rw [hx]
+      exact ⟨rfl, rfl, trivial⟩
+    · show match Jws.verifyPlan c.alg (.ed (zeros 32)) c.signature with
+        | .reject => False
+        | .primitive sc hh sig => snCompactEnv.answer (.sigVerify sc hh (.ed (zeros 32)) c.signingInput sig) = .bool true
+        | .«opaque» => snCompactEnv.answer (.jwsVerify _ [0]) = .bool true
+      rw [hpl]
+      rfl
   | error => rw [hc] at hp; cases hp
   | unmodelled => rw [hc] at hp; cases hp
-
-theorem safetyNet_compact_parse :
-    (match Jws.parse (Bytes.ofString "eyJ4NWMiOlsiQUE9PSJdfQ.e30.") with
-     | .ok c => c.x5c == [[0]] && c.payload == Bytes.ofString "{}" && c.signature == [] && c.verifiable &&
-                c.signingInput == Bytes.ofString "eyJ4NWMiOlsiQUE9PSJdfQ.e30" && Jws.claims c.payload == some []
-     | _ => false) = true :=
-  compact_parse_aux
 
 /-- `safetyNet_binds` without an extra hypothesis is FALSE: with SHA-256 unavailable (so `HashInj` holds vacuously for it)
     the empty nonce matches every authenticator data -/
